@@ -261,3 +261,212 @@ Proof. exact (@hnf_reduce_returns_iff n b). Qed.
 Example from_basis_singular_ex :
   from_basis [:: [:: qz 1; qz 2]; [:: qz 2; qz 4]] = Panic PIndex.
 Proof. by vm_compute. Qed.
+
+(** ** third wave (T1): the polynomial discriminant is computed by the model itself
+
+    [Round2.order_disc m b f] is [Order::discriminant] as the correspondence check runs it since the third
+    wave: [determinant(&self.basis)], then [discriminant(min_poly)] by the model of src/discriminant.rs
+    ([Resultant.discriminant], specified in Props/C05.v), then the rest of [discriminant_with_min_poly]
+    ([order_discriminant] at that value).  No value is handed over from the implementation. *)
+From RNT.Model Require Resultant Round2.
+From RNT.Refine Require OrderW3Disc.
+From mathcomp Require Import poly mxpoly.
+
+(** [P] order_disc_spec: a value returned by the wired discriminant is the value [order_discriminant] returns
+    at discf = the value returned by [discriminant(min_poly)] *)
+Theorem order_disc_spec (m : mode) (b : list (list Qc)) (f : list Z) (d : Z) :
+  Round2.order_disc m b f = Done d ->
+  exists discf, snd (Resultant.discriminant m f) = Done discf /\ order_discriminant m discf b f = Done d.
+Proof. exact (@OrderW3Disc.order_disc_spec m b f d). Qed.
+
+(** [P] ... and conversely (so every [order_discriminant] theorem with discf := the value of [discriminant] transfers) *)
+Theorem order_disc_iff (m : mode) (b : list (list Qc)) (f : list Z) (d : Z) :
+  Round2.order_disc m b f = Done d <->
+  exists discf, snd (Resultant.discriminant m f) = Done discf /\ order_discriminant m discf b f = Done d.
+Proof. exact (@OrderW3Disc.order_disc_iff m b f d). Qed.
+
+(** [P] disc_index for the wired discriminant: disc(B) = (A:B)^2 disc(A), incl. the integrality assertion *)
+Theorem disc_index_wired (m : mode) (a b : list (list Qc)) (f : list Z) (i dA : Z) :
+  order_index a b = Done i -> Round2.order_disc m a f = Done dA ->
+  Round2.order_disc m b f = Done (i * i * dA)%Z.
+Proof. exact (@OrderW3Disc.disc_index_wired m a b f i dA). Qed.
+
+Example disc_index_wired_ex :
+  let a := [:: [:: qz 1; qz 0]; [:: qhalf; qhalf]] in let b := [:: [:: qz 1; qz 0]; [:: qz 0; qz 1]] in
+  [/\ order_index a b = Done 2%Z, Resultant.discriminant Checked [:: 37; -2; 1]%Z = (true, Done (-144)%Z),
+      Round2.order_disc Checked a [:: 37; -2; 1]%Z = Done (-36)%Z
+    & Round2.order_disc Checked b [:: 37; -2; 1]%Z = Done (-144)%Z].
+Proof. by split; vm_compute. Qed.
+
+(** [P] singly_gen_disc for the wired discriminant: for monic f of degree n >= 2 and its root theta, whenever
+    [discriminant] of the order Z[theta] = [singly_gen] returns d, d is exactly the value [discriminant(f)] returns *)
+Theorem singly_gen_disc_wired (m : mode) (f : list Z) (n : nat) (o : list (list Qc)) (d : Z) :
+  length f = n.+1 -> (2 <= n)%coq_nat -> List.nth n f 0%Z = 1%Z ->
+  singly_gen f (alg_new f) = Done o -> Round2.order_disc m o f = Done d ->
+  snd (Resultant.discriminant m f) = Done d.
+Proof. exact (@OrderW3Disc.singly_gen_disc_wired m f n o d). Qed.
+
+(** [P] ... and it returns (2n < 2^64): [discriminant(f)] returns some d with all divisions exact, the order's
+    discriminant is that d, and d lc f = (-1)^(n(n-1)/2) det Sylvester(f, f') (C05's [discriminant_spec]; lc f = 1) *)
+Theorem singly_gen_disc_wired_returns (m : mode) (f : list Z) (n : nat) (o : list (list Qc)) :
+  length f = n.+1 -> (2 <= n)%coq_nat -> List.nth n f 0%Z = 1%Z -> (2 * Z.of_nat n < two64)%Z ->
+  singly_gen f (alg_new f) = Done o ->
+  exists d, [/\ Resultant.discriminant m f = (true, Done d), Round2.order_disc m o f = Done d
+              & d * lead_coef (Poly f) =
+                (-1) ^+ (((size f).-1 * (size f).-1.-1) %/ 2) * \det (Sylvester_mx (Poly f)^`() (Poly f))].
+Proof. exact (@OrderW3Disc.singly_gen_disc_wired_returns m f n o). Qed.
+
+(** non-vacuity: Dedekind's cubic again, nothing supplied from outside *)
+Example singly_gen_disc_wired_ex :
+  let f := [:: -8; -2; -1; 1]%Z in
+  [/\ List.nth 3 f 0%Z = 1%Z, Resultant.discriminant Checked f = (true, Done (-2012)%Z)
+    & (do o <- singly_gen f (alg_new f); Round2.order_disc Checked o f) = Done (-2012)%Z].
+Proof. by split; vm_compute. Qed.
+
+(** ** third wave (T2): the constructors store bases of the intended Z-modules
+
+    [In_qrowspan m v A] (OrderW3Span.v): v = sum_t c_t A_t for an integer vector c (one coefficient per row of A);
+    [same_qrowspan m A B]: the rows of A and of B have the same integer span.  Coordinates are rational
+    coordinates in the power basis 1, x, ..., x^(n-1) of Q[x]/(f), as everywhere in [Order]. *)
+From RNT.Refine Require Import PolyZ AlgMul AlgQuot OrderW3Span OrderW3Gen.
+
+(** [P] [from_basis] (= [hnf_reduce]) keeps the module: the stored basis and the given basis have the same
+    integer row span (the stored basis is U * given with U unimodular) *)
+Theorem from_basis_same_module (n : nat) (b r : list (list Qc)) :
+  (1 <= n)%coq_nat -> qshape n n b -> from_basis b = Done r ->
+  qshape n n r /\ same_qrowspan n r b.
+Proof. exact (OrderW3Span.hnf_reduce_same_span n b r). Qed.
+
+(** [P] [trivial_order_monic f], n = deg f >= 1: it is [from_basis] of the identity rows, and the stored
+    basis spans exactly Z^n = Z + Z x + ... + Z x^(n-1): the vectors with integer coordinates *)
+Theorem trivial_order_rows (f : list Z) (r : list (list Qc)) : trivial_order_monic f = Done r ->
+  let n := Z.to_nat (pdeg f) in (1 <= n)%coq_nat ->
+  from_basis (identity fopsQc n) = Done r /\ qshape n n r /\ same_qrowspan n r (identity fopsQc n).
+Proof. exact (OrderW3Span.trivial_order_span f r). Qed.
+
+Theorem trivial_order_module (f : list Z) (r : list (list Qc)) : trivial_order_monic f = Done r ->
+  let n := Z.to_nat (pdeg f) in (1 <= n)%coq_nat ->
+  forall v : list Qc, In_qrowspan n v r <-> exists c : list Z, length c = n /\ v = List.map qz c.
+Proof. exact (@OrderW3Gen.trivial_order_module f r). Qed.
+
+Example trivial_order_module_ex :
+  Base.omap (List.map (List.map this)) (trivial_order_monic [:: 37; -2; 1]%Z) = Done [:: [:: 1 # 1; 0 # 1]; [:: 0 # 1; 1 # 1]]%Q
+  /\ Z.to_nat (pdeg [:: 37; -2; 1]%Z) = 2%nat.
+Proof. by split; vm_compute. Qed.
+
+(** [P] [non_monic_initial_order f], n = deg f: whenever it returns, n >= 1, it is [from_basis] of the rows
+    [nm_rows f n] (row 0 = the vector of 1; row i >= 1 = a_n x^i + a_(n-1) x^(i-1) + ... + a_(n-i+1) x, where
+    f = sum a_k x^k: see [nm_rows_entry]), the stored basis spans the same module, and 1 lies in it *)
+Theorem non_monic_order_module (f : list Z) (r : list (list Qc)) : non_monic_initial_order f = Done r ->
+  let n := Z.to_nat (pdeg f) in
+  (1 <= n)%coq_nat /\ from_basis (nm_rows f n) = Done r /\ qshape n n r /\
+  same_qrowspan n r (nm_rows f n) /\ In_qrowspan n (qe0 n) r.
+Proof. exact (OrderW3Span.non_monic_order_span f r). Qed.
+
+Theorem nm_rows_entry (f : list Z) (n i j : nat) : (i < n)%coq_nat -> (j < n)%coq_nat ->
+  List.nth j (List.nth i (nm_rows f n) [::]) q0 =
+  if (i =? 0)%nat && (j =? 0)%nat then Q2Qc 1
+  else if (1 <=? j)%nat && (j <=? i)%nat then qz (coef_at opsZ f (n - (i - j))%coq_nat) else q0.
+Proof. exact (OrderW3Span.nm_rows_entry f n i j). Qed.
+
+(** f = 2x^3 + 5x^2 - x + 3: rows 1, 2x, 2x^2 + 5x *)
+Example non_monic_order_module_ex :
+  let f := [:: 3; -1; 5; 2]%Z in
+  List.map (List.map this) (nm_rows f 3) = [:: [:: 1 # 1; 0 # 1; 0 # 1]; [:: 0 # 1; 2 # 1; 0 # 1]; [:: 0 # 1; 5 # 1; 2 # 1]]%Q /\
+  Base.omap (List.map (List.map this)) (non_monic_initial_order f)
+    = Done [:: [:: 1 # 1; 0 # 1; 0 # 1]; [:: 0 # 1; 2 # 1; 0 # 1]; [:: 0 # 1; 1 # 1; 2 # 1]]%Q.
+Proof. by split; vm_compute. Qed.
+
+(** [P] [singly_gen f theta] for a canonical f of degree n >= 1 and an element theta of Q[x]/(f) given by a
+    canonical coefficient list of length <= n ([elem n theta]): it is [from_basis] of the n rows
+    [pow_row f n theta k] = coordinates of theta^k mod f (k < n) -- same outcome, so it returns exactly when the
+    powers 1, theta, ..., theta^(n-1) are independent ([from_basis_returns_iff]) -- and then the stored basis
+    spans Z + Z theta + ... + Z theta^(n-1); each power, and 1, lies in it *)
+Theorem singly_gen_rows (f : list Z) (n : nat) (theta : list Qc) :
+  canonZ f -> size f = n.+1 -> (0 < n)%nat -> elem n theta ->
+  singly_gen f theta = from_basis (power_rows f n theta).
+Proof. exact (@OrderW3Gen.singly_gen_rows f n theta). Qed.
+
+Theorem singly_gen_module (f : list Z) (n : nat) (theta : list Qc) (r : list (list Qc)) :
+  canonZ f -> size f = n.+1 -> (0 < n)%nat -> elem n theta ->
+  singly_gen f theta = Done r ->
+  [/\ from_basis (power_rows f n theta) = Done r, qshape n n r,
+      same_qrowspan n r (power_rows f n theta),
+      forall k, (k < n)%coq_nat -> In_qrowspan n (pow_row f n theta k) r
+    & In_qrowspan n (qe0 n) r].
+Proof. exact (@OrderW3Gen.singly_gen_module f n theta r). Qed.
+
+(** non-vacuity: Dedekind's cubic, theta = x^2 + x (its powers are independent; Z[theta] has index 8 in Z[x]/(f)) *)
+Example singly_gen_module_ex :
+  let f := [:: -8; -2; -1; 1]%Z in let theta := [:: qz 0; qz 1; qz 1] in
+  [/\ canonZ f, elem 3 theta
+    & Base.omap (List.map (List.map this)) (singly_gen f theta)
+      = Done [:: [:: 1 # 1; 0 # 1; 0 # 1]; [:: 0 # 1; 8 # 1; 0 # 1]; [:: 0 # 1; 1 # 1; 1 # 1]]%Q].
+Proof. by split; vm_compute. Qed.
+
+(** ** third wave (T3): [union] is total on full-rank input *)
+From RNT.Refine Require OrderW3Union.
+Local Open Scope ring_scope.
+
+(** [P] union_total: on two n x n bases, n >= 1, the first of which is non-singular, [union] returns (no bounds
+    failure in the read-back loop: the normal form of the stacked generators has exactly n rows; no panic in the
+    normal-form computations: C02 totality).  By [union_comm] the same holds when the second one is non-singular. *)
+Theorem union_total (n : nat) (a b : list (list Qc)) :
+  (1 <= n)%coq_nat -> qshape n n a -> qshape n n b -> \det (qmx n n a) != 0 ->
+  exists r, order_union a b = Done r.
+Proof. exact (@OrderW3Union.order_union_total n a b). Qed.
+
+(** [P] ... in particular on two stored orders (outputs of [from_basis] = [hnf_reduce] on n x n bases) of the same
+    dimension; with [union_spec] the result is the stored basis of the smallest module containing both *)
+Theorem union_total_stored (n : nat) (a0 b0 a b : list (list Qc)) :
+  (1 <= n)%coq_nat -> qshape n n a0 -> qshape n n b0 ->
+  from_basis a0 = Done a -> from_basis b0 = Done b ->
+  exists r, order_union a b = Done r.
+Proof. exact (@OrderW3Union.order_union_total_stored n a0 b0 a b). Qed.
+
+(** non-vacuity: the two stored orders Z[3i], Z[2i] of [union_ex] *)
+Example union_total_ex :
+  let a := [:: [:: qz 1; qz 0]; [:: qhalf; qhalf]] in let b := [:: [:: qz 1; qz 0]; [:: Qcmult (qz 2) qthird; qthird]] in
+  [/\ qshape 2 2 a, qshape 2 2 b,
+      Base.omap (List.map (List.map this)) (from_basis a) = Done (List.map (List.map this) a),
+      Base.omap (List.map (List.map this)) (from_basis b) = Done (List.map (List.map this) b)
+    & Base.omap (List.map (List.map this)) (order_union a b) = Done [:: [:: 1 # 1; 0 # 1]; [:: 5 # 6; 1 # 6]]%Q].
+Proof. by split; try (by vm_compute); split=> //; repeat constructor. Qed.
+
+(** ** third wave (T5): the discriminant of an order is the determinant of its trace form -- an integer
+
+    Hypothesis "the module is an order with an integral table" = [get_mult_table b f = Done t]: every product
+    w_i w_j has integer coordinates in the basis (the rows of b), which is what the code itself checks when it
+    builds the table.  [DetInvDiff.trace_form t n] is the integer matrix Tr_ij = trace(w_i w_j) computed from the
+    table (the matrix of [inv_diff_dual] in C14).  Proof without roots: Euler's formula
+    lc * tr(mult. by g) = coefficient n-1 of (g f' mod f), the dual basis of the power basis (Horner polynomials),
+    and [AlgNormRes.resultant_redmx]; see OrderW3Trace.v, OrderW3TraceTable.v, OrderW3DiscInt.v. *)
+From RNT.Refine Require DetInvDiff OrderW3DiscInt.
+Local Open Scope ring_scope.
+
+(** [P] order_disc_trace_form: for canonical f of degree n >= 1 (2n < 2^64) and an n x n basis b with
+    [get_mult_table b f = Done t], [Order::discriminant] returns det Tr: [discriminant(min_poly)] returns, the
+    usize arithmetic does not overflow, the division is by a non-zero number and [assert!(value.is_integer())] holds *)
+Theorem order_disc_trace_form (m : mode) (f : list Z) (n : nat) :
+  canonZ f -> size f = n.+1 -> (0 < n)%nat -> (2 * Z.of_nat n < two64)%Z ->
+  forall b : list (list Qc), size b = n -> (forall i, (i < n)%nat -> size (seq.nth [::] b i) = n) ->
+  forall t : table, get_mult_table b f = Done t ->
+  Round2.order_disc m b f = Done (\det (DetInvDiff.trace_form t n)).
+Proof. exact (@OrderW3DiscInt.order_disc_trace_form m f n). Qed.
+
+(** [P] the same for [order_discriminant] at any d with d * lc f = (-1)^(n(n-1)/2) Res(f', f) *)
+Theorem order_discriminant_trace_form (m : mode) (f : list Z) (n : nat) :
+  canonZ f -> size f = n.+1 -> (0 < n)%nat -> (2 * Z.of_nat n < two64)%Z ->
+  forall b : list (list Qc), size b = n -> (forall i, (i < n)%nat -> size (seq.nth [::] b i) = n) ->
+  forall t : table, get_mult_table b f = Done t ->
+  forall d : Z, d * lead_coef (Poly f) = (-1) ^+ ((n * n.-1) %/ 2) * resultant (Poly f)^`() (Poly f) ->
+  order_discriminant m d b f = Done (\det (DetInvDiff.trace_form t n)).
+Proof. exact (@OrderW3DiscInt.order_discriminant_trace_form m f n). Qed.
+
+(** non-vacuity: the maximal order Z[(1 + sqrt 5)/2] of Q(sqrt 5) (f = x^2 - 5, disc 5 = det [[2 1] [1 3]]) *)
+Example order_disc_trace_form_ex :
+  let f := [:: -5; 0; 1]%Z in
+  let b := [:: [:: qz 1; qz 0]; [:: qhalf; qhalf]] in
+  [/\ canonZ f, get_mult_table b f = Done [:: [:: [:: 1; 0]; [:: 0; 1]]; [:: [:: 0; 1]; [:: 1; 1]]]%Z
+    & Round2.order_disc Checked b f = Done 5%Z].
+Proof. by split; vm_compute. Qed.
